@@ -250,13 +250,16 @@ class ShapeFamily:
 class NulFamily(ShapeFamily):
     """harness fn instantiated per NUL-bearing shape (and its converted twin)"""
 
-    def __init__(self, *a, two=False, **kw):
+    def __init__(self, *a, two=False, skip=(), **kw):
         super().__init__(*a, **kw)
         self.two = two
+        self.skip = skip
 
     def obligations(self, tier):
         out = []
         for a, b in SH.nul_shapes():
+            if a.name in self.skip:
+                continue
             name = "%s__%s" % (self.fn, a.name)
             shp = (a, b) if self.two else a
             o = Obl(name, self.props, self.crate, self.module + "::" + name, tier="quick", timeout=self.timeout,
@@ -333,23 +336,23 @@ FAMILIES = [
               "reader strategy, quit detection: delivered is a PREFIX of the search of the input cut at the first NUL, no NUL "
               "reaches the sink, one binary notice at that offset, finish reports it; hit patterns x invert x (A,B) in "
               "{(0,0),(1,1)} x fragmentation (1,1) enumerated in-harness; line numbering symbolic",
-              READER_FUNCS + ("ReadByLine::fill", "LineBuffer::fill"), heavy=True, timeout=1500, rules=searcher_rules(2),
+              READER_FUNCS + ("ReadByLine::fill", "LineBuffer::fill"), timeout=1500, rules=searcher_rules(2),
               unwind=lambda sh: 40),
     NulFamily("c14_reader_quit_wide", ["C14"], SEARCHER, CORE_MOD, GEN,
               "reader strategy, quit detection: delivered is a PREFIX of the search of the input cut at the first NUL, no NUL "
               "reaches the sink, one binary notice at that offset, finish reports it; hit patterns x invert x (A,B) in "
               "{(0,0),(1,1)} x fragmentation (4,2) enumerated in-harness; line numbering symbolic",
-              READER_FUNCS + ("ReadByLine::fill", "LineBuffer::fill"), heavy=True, timeout=1500, rules=searcher_rules(2),
+              READER_FUNCS + ("ReadByLine::fill", "LineBuffer::fill"), timeout=1500, rules=searcher_rules(2),
               unwind=lambda sh: 40),
     NulFamily("c14_reader_convert", ["C14"], SEARCHER, CORE_MOD, GEN,
               "reader strategy, convert detection: delivered == search of the input with every NUL replaced by the terminator + "
-              "one binary notice at the first NUL; enumerated as above, fragmentation (1,1)",
-              READER_FUNCS + ("line_buffer::replace_bytes",), heavy=True, timeout=1500, rules=searcher_rules(2), two=True,
+              "one binary notice at the first NUL; hit patterns x (A,B) in {(0,0),(1,1)} enumerated, not inverted, fragmentation (1,1)",
+              READER_FUNCS + ("line_buffer::replace_bytes",), timeout=1500, rules=searcher_rules(2), two=True, skip=("n_mid",),
               unwind=lambda sh: 40),
     NulFamily("c14_reader_convert_wide", ["C14"], SEARCHER, CORE_MOD, GEN,
               "reader strategy, convert detection: delivered == search of the input with every NUL replaced by the terminator + "
-              "one binary notice at the first NUL; enumerated as above, fragmentation (2,3)",
-              READER_FUNCS + ("line_buffer::replace_bytes",), heavy=True, timeout=1500, rules=searcher_rules(2), two=True,
+              "one binary notice at the first NUL; hit patterns x invert enumerated, (A,B)=(1,1), fragmentation (2,3)",
+              READER_FUNCS + ("line_buffer::replace_bytes",), timeout=1500, rules=searcher_rules(2), two=True, skip=("n_mid",),
               unwind=lambda sh: 40),
     ShapeFamily("c02_reader_tiny", ["C02"], SEARCHER, CORE_MOD, GEN,
                 "ReadByLine over LineBufferReader, capacity 1 / 1-byte reads (a roll and a grow at every byte) == grep model "
@@ -427,6 +430,30 @@ FAMILIES = [
 ]
 
 
+# Quick tier only: a family shared by several properties runs, for a property
+# that is not its main subject, on the listed shapes only (None = family not in
+# that property's quick tier).  The thorough tier runs everything.
+QUICK_ONLY = {
+    "C01": {
+        "c03_slice_ctx": {"q_one", "q_one_unterm", "q_blank", "q_two", "q_blank_mid", "q_crlf_mix", "q_crlf_blank"},
+        "c03_slice_stop": None,
+        "c03_slice_passthru": None,
+        "c03_fast_confirmed": {"q_two", "q_crlf_mix"},
+        "c03_fast_candidate_all": {"q_two", "q_blank_mid", "q_crlf_mix"},
+        "c03_fast_stop": None,
+    },
+    "C03": {
+        "c01_find_by_line_fast": {"q_two", "q_blank_mid", "q_crlf_mix"},
+        "c03_fast_confirmed": {"q_two", "q_blank_mid", "q_crlf_mix", "q_nul"},
+        "c03_fast_candidate_all": {"q_two", "q_blank_mid", "q_crlf_mix"},
+        "c03_fast_stop": {"q_two", "q_blank_mid", "q_crlf_mix"},
+        "c03_slice_stop": {"q_empty", "q_one", "q_one_unterm", "q_blank", "q_two", "q_blank_mid", "q_crlf_mix"},
+        "c03_slice_ctx": {"q_empty", "q_one", "q_one_unterm", "q_blank", "q_two", "q_blank_mid", "q_blank_first", "q_blank_last", "q_crlf_mix", "q_crlf_blank", "q_nul", "q_four"},
+        "c03_slice_passthru": {"q_empty", "q_one_unterm", "q_blank", "q_two", "q_blank_mid", "q_crlf_blank", "q_nul"},
+    },
+}
+
+
 def obligations(prop, tier, seed):
     out = []
     for u in UNITS:
@@ -434,7 +461,12 @@ def obligations(prop, tier, seed):
             out.append(u)
     for f in FAMILIES:
         if prop in f.props:
-            out.extend(f.obligations(tier))
+            obs = f.obligations(tier)
+            lim = QUICK_ONLY.get(prop, {})
+            if tier == "quick" and f.fn in lim:
+                keep = lim[f.fn]
+                obs = [] if keep is None else [o for o in obs if o.shape.name in keep]
+            out.extend(obs)
     for h in H_OBLS:
         if prop in h.props:
             out.append(h)
